@@ -19,7 +19,7 @@ def load(ctx):
     over re.match(<literal>, val) tests (overwrite chain, early returns, elif ladder ...)."""
     p, A, G = ctx.p, ctx.A, ctx.G
     fn = p.find_function("_check_sensitive_item_format")
-    val = ("param", fn.params[0])
+    val = ("param", fn.mparams[0])
     fp = A.paths(fn)
     tests = []
     outcomes = []
